@@ -172,12 +172,19 @@ def gen_reuse(rng, tier):
             if rng.random() < 0.2:
                 t[0] = rng.choice(model.W_XML + model.W_PAREN[:8])
     second = rng.choice(["export", "tigerxml", "discobrackets", "terminals", "extract",
-                         "gapdegree", "trans+export", "disco_order"])
+                         "gapdegree", "trans+export", "trans+export", "trans+export",
+                         "disco_order"])
+    trans2 = rng.choice([["root_attach"], ["negra_mark_heads", "binarize"],
+                         ["root_attach", "negra_mark_heads", "boyd_split", "raising"],
+                         ["punctuation_delete"], ["add_topnode"], ["punctuation_root"],
+                         ["root_attach", "negra_mark_heads", "boyd_split"]])
+    fmt2 = rng.choice(["export", "export", "tigerxml", "discobrackets"])
     failing = w1 in ("export", "tigerxml", "discobrackets", "terminals") and rng.random() < 0.3
     if failing:
         # the first write goes to an ASCII stream and meets a word it cannot encode
         tb[0]["tokens"][-1][0] = rng.choice(["Käse", "Straße"])
     return {"mode": "reuse", "tb": tb, "first": w1, "second": second, "first_fails": failing,
+            "trans2": trans2, "fmt2": fmt2,
             "first_opts": {"export_four": True} if w1 == "export" and rng.random() < 0.5 else {},
             "shuffle": rng.randrange(1 << 30)}
 
@@ -499,8 +506,8 @@ def reuse_ops(sc, with_first):
             ops += [["trans", "t", "negra_mark_heads", {}], ["trans", "t", "binarize", {}],
                     ["call", "disco_order", "t", "left"]]
         elif x == "trans+export":
-            ops += [["trans", "t", "root_attach", {}], ["sio", "b"],
-                    ["write", "export", "t", "b", {}], ["sval", "b"]]
+            ops += [["trans", "t", name, {}] for name in sc.get("trans2", ["root_attach"])]
+            ops += [["sio", "b"], ["write", sc.get("fmt2", "export"), "t", "b", {}], ["sval", "b"]]
         else:
             ops += [["sio", "b"], ["write", x, "t", "b", {}], ["sval", "b"]]
     return ops
